@@ -386,6 +386,11 @@ class ManifestFile:
         openpgp_data = ''
 
         for line in f:
+            # NUL is never valid in a Manifest, and GnuPG treats trailing
+            # NULs as insignificant whitespace when verifying
+            if '\0' in line:
+                raise ManifestSyntaxError(
+                    f'NUL byte in Manifest line: {line!r}')
             if state == ManifestState.DATA:
                 if line == '-----BEGIN PGP SIGNED MESSAGE-----\n':
                     if self.entries:
